@@ -56,8 +56,11 @@ pub fn truncate(s: &str, n: usize) -> String {
 pub struct Spec<'a> {
     pub exe: Option<&'a Path>,
     pub args: Vec<String>,
+    /// further arguments that need not be UTF-8 (appended after `args`)
+    pub os_args: Vec<std::ffi::OsString>,
     pub stdin: Option<Vec<u8>>,
-    pub cwd: Option<&'a Path>,
+    /// owned, so that a spec can outlive the path it was built from
+    pub cwd: Option<std::path::PathBuf>,
     pub env: Vec<(String, String)>,
     pub timeout: Duration,
     /// deliver stdin in chunks of this many bytes with short pauses (short reads in the child)
@@ -66,7 +69,7 @@ pub struct Spec<'a> {
 
 impl<'a> Spec<'a> {
     pub fn new(args: &[&str]) -> Spec<'a> {
-        Spec { exe: None, args: args.iter().map(|s| s.to_string()).collect(), stdin: None, cwd: None, env: vec![], timeout: Duration::from_secs(60), stdin_chunk: None }
+        Spec { exe: None, args: args.iter().map(|s| s.to_string()).collect(), os_args: vec![], stdin: None, cwd: None, env: vec![], timeout: Duration::from_secs(60), stdin_chunk: None }
     }
     pub fn stdin(mut self, data: &[u8]) -> Self {
         self.stdin = Some(data.to_vec());
@@ -76,12 +79,16 @@ impl<'a> Spec<'a> {
         self.stdin_chunk = Some(n.max(1));
         self
     }
-    pub fn cwd(mut self, p: &'a Path) -> Self {
-        self.cwd = Some(p);
+    pub fn cwd(mut self, p: &Path) -> Self {
+        self.cwd = Some(p.to_path_buf());
         self
     }
     pub fn exe(mut self, p: &'a Path) -> Self {
         self.exe = Some(p);
+        self
+    }
+    pub fn os_arg(mut self, a: &std::ffi::OsStr) -> Self {
+        self.os_args.push(a.to_os_string());
         self
     }
     pub fn env(mut self, k: &str, v: &str) -> Self {
@@ -97,9 +104,10 @@ pub fn run(spec: Spec) -> CliRun {
     };
     let mut cmd = Command::new(exe);
     cmd.args(&spec.args);
+    cmd.args(&spec.os_args);
     cmd.stdout(Stdio::piped()).stderr(Stdio::piped());
     cmd.stdin(if spec.stdin.is_some() { Stdio::piped() } else { Stdio::null() });
-    if let Some(c) = spec.cwd {
+    if let Some(c) = &spec.cwd {
         cmd.current_dir(c);
     }
     for (k, v) in &spec.env {
